@@ -261,6 +261,10 @@ func (e *Env) groupEmptiness(l *facts.Level) {
 		if l.NamesBits && ((res && hasGuard(lf, emptySet)) || (!res && hasGuard(lf, ir.NotCond(emptySet)))) {
 			continue
 		}
+		// a names map without any entry records no name at all
+		if res && !l.NamesBits && hasGuard(lf, ir.Bin("==", intConst(0), lenOf(namesMap))) {
+			continue
+		}
 		if res {
 			for _, n := range l.Spec.Names() {
 				if !hasGuard(lf, ir.NotCond(look(n))) {
